@@ -8,7 +8,7 @@ import z3
 from contracts import common as CC
 from contracts import national as N
 from pyvc import task as T
-from pyvc.values import SObj, SStr, lift_str, payload
+from pyvc.values import Raised, SObj, SStr, lift_str, payload
 
 
 class RebuildTask(T.Task):
@@ -28,15 +28,20 @@ class RebuildTask(T.Task):
                           "schwifty.checksum.italy.get_index": get_index_contract,
                           "schwifty.checksum.luhn": luhn_contract}
 
+    def needs_validity(self):
+        """only where from_components recomputes a national field does the round trip depend on national validity;
+        elsewhere the stronger statement (every structure-conforming BBAN round-trips) is proved"""
+        from schwifty.checksum import algorithms
+        a, e = self.entry.get("positions", {}).get("national_checksum_digits", [0, 0])
+        return f"{self.cc}:default" in algorithms and e > a
+
     def nat(self):
         return N.EXACT.get(self.cc) or (N.BAND[self.cc][0] if self.cc in N.BAND else None)
 
     def setup(self, I):
         b, self.cl = CC.sym_bban(I, self.cc)
         I.contracts.update(self.contracts)
-        if self.nat() is not None:
-            f, _ = T.spec_formula(I, self.nat(), [b])
-            I.assumptions.append(f)
+        I.contracts["schwifty.bban.BBAN.bank"] = CC.make_bank_contract()
         return {"b": b}
 
     def components(self, b):
@@ -51,6 +56,17 @@ class RebuildTask(T.Task):
     def code(self, I, inp):
         from schwifty import BBAN
         b = inp["b"]
+        # "nationally valid" is what the LIBRARY accepts: BBAN(K, b).validate_national_checksum() returns (paths on
+        # which it raises have nothing to show)
+        try:
+            if self.needs_validity():
+                obj = I.call(BBAN, [self.cc, b], {})
+                ok = I.call(I.getattr(obj, "validate_national_checksum"), [], {})
+        except Raised as e:
+            from schwifty.exceptions import SchwiftyException
+            if isinstance(e.exc, SchwiftyException):
+                return ("NOT-VALID", type(e.exc).__name__)
+            raise
         kw = {}
         for name, (a, e) in self.components(b).items():
             kw[name] = SStr(b.chars[a:e]) if e > a else ""
@@ -65,6 +81,9 @@ class RebuildTask(T.Task):
         out = []
         for i, (path, o) in enumerate(cobs):
             if isinstance(o, T.Escape):
+                continue
+            if isinstance(o, tuple) and o[0] == "NOT-VALID":
+                out.append((f"path {i}: (not nationally valid: nothing to show)", path["pc"], z3.BoolVal(True)))
                 continue
             if isinstance(o, tuple) and o[0] == "BBAN":
                 r = lift_str(o[1]).chars
@@ -82,8 +101,10 @@ class RebuildTask(T.Task):
     def native_agree(self, inp):
         from schwifty import BBAN
         b = inp["b"]
-        if self.nat() is not None and not self.nat()(b):
-            return True, "n/a", "not nationally valid"
+        if self.needs_validity():
+            valid = T.native_obs(lambda: BBAN(self.cc, b).validate_national_checksum())
+            if valid is not True:
+                return True, "n/a", "not nationally valid"
         kw = {name: b[a:e] for name, (a, e) in self.components(b).items()}
         r = T.native_obs(lambda: str(BBAN.from_components(self.cc, **kw)))
         covered = set()
